@@ -117,8 +117,7 @@ def monitor_histories(I):
     hist.append(op)
     info = dict(rp, history=list(hist))
     if op == "monitor sig2":
-        if suspended():
-            raise PathEnd("no plan message runs while the engine is paused; inside a suspension the suspender's own plans do not monitor")
+        # (also while suspended: a suspender's pre-plan may start a monitor; it must stay unsubscribed until the release)
         r = call_async(I, I.getattr(b, "monitor"), MsgVal("monitor", d2, (), {"name": "mon2"}, None))
         w.check(M_INV, pre_ok and r[0] == "ok" and inv() and d2 in b._monitor_params, info)
     elif op == "unmonitor sig":
